@@ -22,6 +22,12 @@ def run(ctx):
     cases = []
     for _ in range(n):
         w = l3gen.gen_workspace(rng)
+        if w.get("applied") is None and rng.random() < 0.3:
+            # a tree that quilt has initialised but where nothing is pushed yet: .pc is there, applied-patches is not
+            # (seeded C10-h: the list of applied patches was opened with create(true) before the dry-run flag counted)
+            w["files"][b".pc/.version"] = (b"2\n", 0o644)
+            if rng.random() < 0.5:
+                w["files"][b".pc/.quilt_series"] = (b"series\n", 0o644)
         cfg = l3common.rand_cfg(rng, threads=(1, 1, 2, 4), dry=True)
         cfg["extra"] = rng.choice([["-q"], [], ["-v"]])
         cases.append((w, cfg))
